@@ -401,8 +401,21 @@ func (w *fetchWorld) RoundTrip(req *http.Request) (*http.Response, error) {
 			Body: failingBody{err: errors.New("scripted body failure")}, Request: req}, nil
 	case "truncated":
 		return reply(200, a.item.der[:len(a.item.der)/2])
+	case "oversized":
+		// a valid list followed by 33 MiB of padding (served from a reader: nothing of that size is allocated here)
+		return &http.Response{StatusCode: 200, Status: "200", Proto: "HTTP/1.1", ProtoMajor: 1, ProtoMinor: 1, Header: http.Header{},
+			Body: io.NopCloser(io.MultiReader(bytes.NewReader(a.item.der), io.LimitReader(zeroReader{}, 33<<20))), Request: req}, nil
 	}
 	return reply(404, nil)
+}
+
+type zeroReader struct{}
+
+func (zeroReader) Read(p []byte) (int, error) {
+	for i := range p {
+		p[i] = 0
+	}
+	return len(p), nil
 }
 
 // the cache: a map with switchable faults (a cache that answers from a map, as the model's)
@@ -728,8 +741,11 @@ func genC18(r *Runner) {
 		}
 		// base URL faults and odd URLs
 		for _, u := range []string{"", urlBase, "https://crl.example/base.crl", "ftp://crl.example/base.crl", "crl.example/base.crl", urlBad, urlUpper, " http://crl.example/base.crl", "http://crl.example/\x7f"} {
-			for _, k := range []string{"crl", "404", "500", "201", "203", "206", "transport-error", "garbage", "empty", "body-error", "truncated"} {
+			for _, k := range []string{"crl", "404", "500", "201", "203", "206", "transport-error", "garbage", "empty", "body-error", "truncated", "oversized"} {
 				u, k := u, k
+				if k == "oversized" && u != urlBase {
+					continue // one 32 MiB read per configuration is enough
+				}
 				init := func(w *fetchWorld) {
 					a := srvAns{kind: k, item: pool.get(1, "fresh", absent)}
 					w.server[u] = a
